@@ -107,8 +107,27 @@ static std::string mutate(Choices &c, Val &root, int &depth)
 	switch (t->k)
 	{
 	case Val::Int:
-		switch (c.pickn(4))
+		switch (c.pickn(5))
 		{
+		case 4:
+			// the unsigned values a careless signed/unsigned comparison would confuse it with
+			if (t->neg && t->mag)
+			{
+				bool wrap = c.coin(50);
+				t->mag = wrap ? (uint64_t)0 - t->mag : 0; // two's-complement image, or the clamp to 0
+				t->neg = false;
+				t->as_u64 = true;
+				return wrap ? "negative int64 -> the uint64 with the same bit pattern" : "negative int64 -> uint64 0";
+			}
+			else
+			{
+				// non-negative -> the negative int64 whose bit pattern / clamp image it is
+				bool wrap = c.coin(50) && t->mag > (1ULL << 63);
+				t->mag = wrap ? (uint64_t)0 - t->mag : (t->mag && t->mag <= (1ULL << 63) ? t->mag : 1);
+				t->neg = true;
+				t->as_u64 = false;
+				return "non-negative integer -> a negative int64 (bit-pattern image / negation)";
+			}
 		case 0: t->as_u64 = !t->as_u64 && !(t->neg && t->mag); return "int64 node <-> uint64 node, same value";
 		case 1: {
 			double d = (double)t->mag * (t->neg ? -1 : 1);
